@@ -628,6 +628,16 @@ def _opt_map(eng, st, args, ci):
     return _fork_on_option(eng, st, v, on_some, lambda s: [(s, 'ret', NONE)])
 
 
+@intrinsic(r'^((std|core)::option::)?Option::<.*>::or$', 'Option::or (structural ite; falls back to a fork when the payloads do not merge)')
+def _opt_or(eng, st, args, ci):
+    a, b = args
+    c = _discr_is(a, 1)
+    try:
+        return merge_val(c, a, b)
+    except MergeFail:
+        return _fork_on_option(eng, st, a, lambda s, x: [(s, 'ret', a)], lambda s: [(s, 'ret', b)])
+
+
 def _fork_on_result(eng, st, v, on_ok, on_err):
     res = []
     ok_c = _discr_is(v, 0)
